@@ -12,6 +12,10 @@ Suites
   COMPARE-small      exhaustive pairs of short key sequences (duplicates included)
   COMPARE-junkkey    a localization key equal to the generated key of a reference Junk
   ADD-<fmt>          ContentComparer.add for a missing file
+  COUNTWORDS         Entry.count_words against its model (regex engine on re_br / re_sgml regenerated
+                     from the source): values assembled from words and markup chunks (count known by
+                     construction) and random mixes of tags, tag fragments and blanks of all kinds
+  COUNTWORDS-<fmt>   every count_words() the compare model was fed, for the formats using the base counter
   (accumulate)       one observer over several files: summary = sum of the per-file summaries
   (project)          compareProjects on a generated l10n.toml project over one to four locales in
                      ONE run (the configuration's filter is the observer's filter; missing files
@@ -32,15 +36,17 @@ from harness.common import Model, s2l
 FACTS = ("tables", "c03")
 RUNNERS = ["RX"]
 
-RULE = ("per format (properties, dtd, ini, ftl, android strings.xml, po): seeded (reference records, "
-        "edit script) pairs - drop, keep, re-value, escape-equivalent re-value, add, reorder, duplicate on "
+RULE = ("per format (properties, dtd, ini, inc, ftl, android strings.xml, po): seeded (reference records, "
+        "edit script) pairs - drop, keep, re-value, escape-equivalent re-value, empty values, markup in values "
+        "(break tags, other tags, entity references; word counts by construction), Fluent attribute-only edits, "
+        "add, reorder, duplicate on "
         "either side, junk on either side, keys containing key/Key and near misses - each run with a "
         "random filter / no filter and with / without a merge file; plus every pair of key sequences of "
         "length <= 3 over three keys; a case is distinct by (format, both file texts, filter, merge); "
         "non-trivial = at least one entity on either side")
 
-FORMATS = ["properties", "dtd", "ini", "ftl", "android", "po"]
-FILE = {"properties": "a.properties", "dtd": "a.dtd", "ini": "a.ini", "ftl": "a.ftl",
+FORMATS = ["properties", "dtd", "ini", "inc", "ftl", "android", "po"]
+FILE = {"properties": "a.properties", "dtd": "a.dtd", "ini": "a.ini", "inc": "a.inc", "ftl": "a.ftl",
         "android": "strings.xml", "po": "a.po"}
 STATS = ["missing", "missing_w", "report", "obsolete", "changed", "changed_w",
          "unchanged", "unchanged_w", "keys"]
@@ -54,7 +60,8 @@ KEY_KEYS = ["accesskey", "commandkey", "open.Key", "Keyboard", "monkey", "key", 
 
 
 # ------------------------------------------------------------ generation ---
-EMPTY_OK = ("properties", "dtd", "ini", "android")     # formats with empty-valued records
+EMPTY_OK = ("properties", "dtd", "ini", "inc", "android")     # formats with empty-valued records
+MARKUP_OK = ("properties", "dtd", "ini", "inc", "po")   # formats counted by Entry.count_words, markup in values
 ATTR_NAMES = ["label", "tooltiptext", "placeholder", "title", "aria-label"]
 
 
@@ -62,7 +69,36 @@ def rec(key, words, flags=(), attrs=()):
     """an item of an edit script: ('rec', key, value words, flags, attributes);
     flags: 'esc' (rendered with an escape, same logical value), 'spice' (checker bait);
     attributes (Fluent only): ((name, words), ...)"""
-    return ("rec", key, list(words), frozenset(flags), tuple((n, tuple(w)) for n, w in attrs))
+    return ("rec", key, [w if isinstance(w, str) else (w[0], w[1]) for w in words], frozenset(flags),
+            tuple((n, tuple(w)) for n, w in attrs))
+
+
+# An element of a value is a plain word (a str, one word) or a chunk (text, words): text without
+# leading / trailing blanks that carries markup, and the number of words it counts for BY
+# CONSTRUCTION: a break tag separates words, any other tag is removed without separating, an
+# entity reference is ordinary text.
+def w_text(w):
+    return w if isinstance(w, str) else w[0]
+
+
+def w_count(w):
+    return 1 if isinstance(w, str) else w[1]
+
+
+def has_markup(it):
+    return any(not isinstance(w, str) for w in it[2])
+
+
+def chunk(rng, fmt):
+    a, b, c = (rng.choice(WORDS) for _ in range(3))
+    br = rng.choice(["<br>", "<br/>", "<br />", "<br\t/>", "<br  >"] + (["<br\n/>", "<br\n>"] if fmt == "dtd" else []))
+    return rng.choice([
+        (f"{a}{br}{b}", 2), (f"{a}{br}{br}{b}", 2), (f"{a}{br}", 1), (br, 0), (f"{a}{br}{b}{br}{c}", 3),
+        (f"{a}<b>{b}</b>", 1), (f"<i>{a}</i>", 1), (f"{a}<a href='x'>{b}</a>{c}", 1),
+        (f"<span class='c d'>{a}</span>", 1), (f"{a}<span class='c d'>{b}</span>", 1), ("<hr/>", 0),
+        (f"{a}<BR/>{b}", 1), (f"{a}<brx/>{b}", 1), (f"{a}<b>{br}</b>{b}", 2),
+        (f"{a}&amp;{b}", 1), ("&amp;", 1), (f"{a}</p>{b}", 1), (f"<b>{a}</b>{br}<b>{b}</b>", 2),
+    ])
 
 
 def is_term(fmt, k):
@@ -72,7 +108,7 @@ def is_term(fmt, k):
 def rec_words(fmt, it):
     """word count of a record by construction: the value; for a Fluent message also its
     attributes (the attributes of a term are private and not counted)"""
-    n = len(it[2])
+    n = sum(w_count(w) for w in it[2])
     if fmt == "ftl" and not is_term(fmt, it[1]):
         n += sum(len(w) for _, w in it[4])
     return n
@@ -86,9 +122,12 @@ def logical(fmt, it):
     return (list(it[2]), ())
 
 
-def words_of(rng, avoid=None):
+def words_of(rng, avoid=None, fmt=None):
+    """one to four elements; for the formats counted by Entry.count_words a quarter of them
+    carry markup"""
     for _ in range(20):
-        w = [rng.choice(WORDS) for _ in range(rng.randint(1, 4))]
+        w = [chunk(rng, fmt) if fmt in MARKUP_OK and rng.random() < 0.25 else rng.choice(WORDS)
+             for _ in range(rng.randint(1, 4))]
         if w != avoid:
             return w
     return list(avoid or []) + ["more"]
@@ -103,22 +142,24 @@ def fresh_key(rng, fmt, used):
             base = base.replace(".", "-")
             if rng.random() < 0.2:
                 base = "-" + base                       # a term
+        if fmt == "inc":
+            base = base.replace(".", "_")
         if fmt == "po":
-            ws = base.replace(".", " ").split() + (words_of(rng) if rng.random() < 0.7 else [])
-            k = (" ".join(ws), rng.choice([None, None, "ctx", "key"]))
+            ws = base.replace(".", " ").split() + (words_of(rng, fmt=fmt) if rng.random() < 0.7 else [])
+            k = (" ".join(map(w_text, ws)), rng.choice([None, None, "ctx", "key"]))
         else:
-            k = base
+            k, ws = base, None
         if k not in used:
             used.add(k)
-            return k
+            return k, ws
 
 
 def fresh_record(rng, fmt, used):
     """(key, value words, attributes) of a new record"""
-    k = fresh_key(rng, fmt, used)
+    k, ws = fresh_key(rng, fmt, used)
     if fmt == "po":
-        return k, k[0].split(), ()                      # the reference value is the msgid
-    words, attrs = words_of(rng), ()
+        return k, ws, ()                                # the reference value is the msgid
+    words, attrs = words_of(rng, fmt=fmt), ()
     if fmt == "ftl" and rng.random() < 0.4:
         attrs = tuple((n, tuple(words_of(rng))) for n in rng.sample(ATTR_NAMES, rng.randint(1, 2)))
         if not is_term(fmt, k) and rng.random() < 0.3:
@@ -143,7 +184,7 @@ def revalue(rng, fmt, k, w, attrs):
         return []           # a Fluent value may not appear or vanish: that is a checker error (C08)
     if w and fmt in EMPTY_OK and rng.random() < 0.15:
         return []
-    return words_of(rng, w)
+    return words_of(rng, w, fmt)
 
 
 def gen_ref(rng, fmt, spicy=False):
@@ -186,7 +227,7 @@ def gen_l10n(rng, fmt, used, base, spicy=False):
             l10n.append(rec(k, revalue(rng, fmt, k, w, a), flags, a))   # re-value
     for _ in range(rng.choice([0, 0, 1, 1, 2, 3])):        # add
         k, w, a = fresh_record(rng, fmt, used)
-        l10n.append(rec(k, w if fmt != "po" else words_of(rng), (), a))
+        l10n.append(rec(k, w if fmt != "po" else words_of(rng, fmt=fmt), (), a))
     if rng.random() < 0.4:
         rng.shuffle(l10n)                                  # reorder
     if l10n and rng.random() < 0.25:                       # duplicate in the localization
@@ -206,7 +247,8 @@ def gen_case(rng, fmt, spicy=False):
 
 def items_json(items):
     return [["junk"] if it[0] == "junk" else
-            ["rec", it[1], it[2], sorted(it[3]), [[n, list(w)] for n, w in it[4]]] for it in items]
+            ["rec", it[1], [w if isinstance(w, str) else list(w) for w in it[2]], sorted(it[3]),
+             [[n, list(w)] for n, w in it[4]]] for it in items]
 
 
 def items_load(js):
@@ -232,11 +274,11 @@ SPICE_L10N = {"properties": " %d �", "dtd": " <b>open &foo; �", "ini": " �
 
 
 def value_text(fmt, it, side):
-    txt = " ".join(it[2])
+    txt = " ".join(map(w_text, it[2]))
     if "esc" in it[3]:
         txt = "\\u%04x" % ord(txt[0]) + txt[1:]
     if "spice" in it[3]:
-        txt += (SPICE if side == "ref" else SPICE_L10N)[fmt]
+        txt += (SPICE if side == "ref" else SPICE_L10N)["ini" if fmt == "inc" else fmt]
     return txt
 
 
@@ -263,6 +305,8 @@ def render(fmt, items, side):
             out.append(f'<!ENTITY {k} "{v}">\n')
         elif fmt == "ini":
             out.append(f"{k}={v}\n")
+        elif fmt == "inc":
+            out.append(f"#define {k} {v}\n" if v else f"#define {k}\n")
         elif fmt == "ftl":
             out.append(f"{k} = {v}\n" if v else f"{k} =\n")
             for name, w in it[4]:
@@ -274,7 +318,7 @@ def render(fmt, items, side):
             if ctx is not None:
                 out.append("msgctxt " + po_quote(ctx) + "\n")
             out.append("msgid " + po_quote(msgid) + "\n")
-            if side == "ref" or it[2] == msgid.split() and "spice" not in it[3] and n % 2:
+            if side == "ref" or " ".join(map(w_text, it[2])) == msgid and "spice" not in it[3] and n % 2:
                 out.append('msgstr ""\n\n')
             else:
                 out.append("msgstr " + po_quote(v) + "\n\n")
@@ -337,6 +381,9 @@ def expected(case, verdicts):
         return len({k for k in ks if ks.count(k) > 1})
     exp_errors = sum(it[0] == "junk" for it in case["l10n"]) + dups(case["l10n"])
     exp_warnings = sum(it[0] == "junk" for it in case["ref"]) + dups(case["ref"])
+    if fmt == "dtd" and any(has_markup(it) for it in case["ref"] + case["l10n"] if it[0] == "rec"):
+        # the DTD checker parses the localized value as XML: its verdicts on markup are C07's subject
+        exp_errors = exp_warnings = None
     return exp, sets, plain, exp_errors, exp_warnings
 
 
@@ -376,6 +423,7 @@ class Tables:
         self.junk_msg = {}          # entity id -> message id
         self.keys = {}
         self.word_errors = 0
+        self.word_vals = []         # (value, count_words()) of the entities counted by Entry.count_words
         vclass = self.value_classes(fmt)
         self.ref_sx, self.l10n_sx = [], []
         for side, ents, out in ((0, self.ref, self.ref_sx), (1, self.l10n, self.l10n_sx)):
@@ -387,6 +435,9 @@ class Tables:
                 if not junk:
                     try:
                         words = e.count_words()
+                        if type(e).count_words is parser.base.Entry.count_words \
+                                and isinstance(e.val, str):
+                            self.word_vals.append((e.val, words))
                     except Exception:  # noqa
                         self.word_errors += 1
                 else:
@@ -600,9 +651,9 @@ def one_pair(chk, work, fmt, ref_text, l10n_text, verdicts, merge, case=None, co
         bad = [k for k in counts if got[k] != exp[k]]
         if plain:
             bad += [k for k in STATS if k.endswith("_w") and got[k] != exp[k]]
-            if summ.get("errors", 0) != exp_err:
+            if exp_err is not None and summ.get("errors", 0) != exp_err:
                 bad.append("errors")
-            if summ.get("warnings", 0) != exp_warn:
+            if exp_warn is not None and summ.get("warnings", 0) != exp_warn:
                 bad.append("warnings")
         # the sets themselves, from the details
         det = res[1][4]
@@ -689,6 +740,11 @@ def suite_compare(chk, work, model, fmt, n, spicy):
         outs = model.call(reqs)
         outs = [post(t, m, o, q) for (t, m, q), o in zip(tabs, outs)]
         chk.correspond(f"COMPARE-{fmt}{'-spicy' if spicy else ''}", descs, impl, outs)
+        # the word counts the model was fed, against the model of Entry.count_words
+        vals = sorted({vw for t, _, _ in tabs for vw in t.word_vals})
+        if vals:
+            chk.correspond(f"COUNTWORDS-{fmt}{'-spicy' if spicy else ''}", [v for v, _ in vals],
+                           [[0, w] for _, w in vals], model.call([(3, s2l(v)) for v, _ in vals]))
 
 
 def suite_small(chk, work, model):
@@ -839,7 +895,8 @@ def suite_accumulate(chk, work, n):
 
 # ------------------------------------------------------------ projects ---
 PROJECT_FILES = [("browser/a.properties", "properties"), ("browser/b.dtd", "dtd"),
-                 ("toolkit/c.ini", "ini"), ("toolkit/d.ftl", "ftl"), ("e.po", "po")]
+                 ("toolkit/c.ini", "ini"), ("toolkit/d.ftl", "ftl"), ("e.po", "po"),
+                 ("toolkit/f.inc", "inc")]
 PROJECT_LOCALES = ["de", "fr", "it", "ja", "pt-BR", "sr-Latn"]
 
 
@@ -881,6 +938,7 @@ def project_one(chk, work, spec):
           '    l10n = "l10n/{locale}/**"\n' % ", ".join('"%s"' % loc for loc in locales))
     want = {loc: dict.fromkeys(["errors", "warnings"] + STATS, 0) for loc in locales}
     want_details = {}
+    unchecked = set()
     for rel, f in spec["files"].items():
         fmt, ref = f["format"], items_load(f["ref"])
         path = os.path.join(root, "reference", rel)
@@ -901,8 +959,11 @@ def project_one(chk, work, spec):
             exp, sets, plain, exp_err, exp_warn = expected({"format": fmt, "ref": ref, "l10n": l10n}, {})
             for k in STATS:
                 w[k] += exp[k]
-            w["errors"] += exp_err
-            w["warnings"] += exp_warn
+            if exp_err is None:
+                unchecked.add(loc)          # checker verdicts on markup: not by construction
+            else:
+                w["errors"] += exp_err
+                w["warnings"] += exp_warn
             want_details[f"{loc}/{rel}"] = (sorted(map(str, sets["missing"])),
                                             sorted(map(str, sets["obsolete"])))
     reset_junk()
@@ -918,6 +979,8 @@ def project_one(chk, work, spec):
         for loc in sorted(locales):
             summ = data["summary"].get(loc, {})
             got = {k: summ.get(k, 0) for k in want[loc]}
+            if loc in unchecked:
+                got["errors"], got["warnings"] = want[loc]["errors"], want[loc]["warnings"]
             if got != want[loc]:
                 chk.fail("project-summary", {"project": spec},
                          {"observer": name, "locale": loc, "quiet": spec.get("quiet", 0),
@@ -949,6 +1012,45 @@ def suite_project(chk, work, n):
         project_one(chk, work, spec)
 
 
+CW_TOKENS = ["one", "two", "x", " ", " ", "\n", "\t", "<br>", "<br/>", "<br />", "<br\n/>", "<br\t>", "<b>",
+             "</b>", "<a href='x'>", "<span class='c d'>", "<", ">", "/", "&amp;", "&foo;", "<BR/>", "<br",
+             "<brx>", "<1>", "<\u00e9>", "< b>", "<b\n>", "\u00a0", "\u2028", "\x1c", "\u3000", "\x85", "<br/"]
+
+
+def impl_count_words(val):
+    from compare_locales.parser.base import LiteralEntity
+    return LiteralEntity("k", val, val).count_words()
+
+
+def suite_countwords(chk, model):
+    """Entry.count_words directly: (a) values assembled from words and markup chunks, the count
+    known by construction; (b) random mixes of words, blanks of all kinds, tags, fragments of tags"""
+    rng = chk.rng
+    vals, impl = [], []
+    for _ in range(chk.n(1500, 12000)):
+        fmt = rng.choice(["dtd", "properties"])
+        ws = [chunk(rng, fmt) if rng.random() < 0.5 else rng.choice(WORDS) for _ in range(rng.randint(0, 5))]
+        sep = [rng.choice([" ", " ", "  ", "\n", " \t "]) for _ in ws]
+        val = "".join(w_text(w) + s_ for w, s_ in zip(ws, sep)).rstrip() if rng.random() < 0.8 else \
+            "".join(w_text(w) + s_ for w, s_ in zip(ws, sep))
+        got = impl_count_words(val)
+        want = sum(w_count(w) for w in ws)
+        chk.count(("cw", val))
+        chk.hist("count_words_expected", min(want, 9))
+        if got != want:
+            chk.fail("count-words", {"value": val}, {"count_words": got, "by construction": want,
+                                                     "elements": [list(w) if not isinstance(w, str) else w for w in ws]})
+        vals.append(val)
+        impl.append([0, got])
+    for _ in range(chk.n(1500, 12000)):
+        val = "".join(rng.choice(CW_TOKENS) for _ in range(rng.randint(0, 9)))
+        chk.count(("cw", val))
+        vals.append(val)
+        impl.append([0, impl_count_words(val)])
+    if model:
+        chk.correspond("COUNTWORDS", vals, impl, model.call([(3, s2l(v)) for v in vals]))
+
+
 def suite_keyname(chk, model):
     from compare_locales.compare.content import ContentComparer
     rng = chk.rng
@@ -973,6 +1075,7 @@ def run(chk, runner_ok):
     if runner_ok:
         rxsuite.run_rx(chk, groups=["c03"], per_regex=chk.n(100, 600))
     suite_keyname(chk, model)
+    suite_countwords(chk, model)
     work = Work()
     try:
         suite_small(chk, work, model)
@@ -1019,6 +1122,12 @@ def replay(chk, path):
                 print("case accumulate", [x["format"] for x in c["scripts"]], "->", bad)
                 if bad:
                     chk.fail("summary-accumulate", c, bad)
+            elif "value" in c:
+                got = impl_count_words(c["value"])
+                want = f["detail"]["by construction"]
+                print("case value", repr(c["value"]), "count_words:", got, "by construction:", want)
+                if got != want:
+                    chk.fail("count-words", c, got)
             elif "key" in c:
                 k = tuple(c["key"]) if isinstance(c["key"], list) else c["key"]
                 got = int(bool(isinstance(k, str) and ContentComparer.keyRE.search(k)))
